@@ -24,12 +24,14 @@ from vf.models import insn_ref as ir
 CHECK = dict(
     id="C17", level="exploration",
     rule=("16-byte candidates from the shared instruction corpus: a seed-independent walk over every class of "
-          "each decoder table (fixed prefix classes x ModRM forms on x86) plus seed-dependent random bytes, stratified opcode "
+          "each decoder table (fixed prefix classes x ModRM forms on x86, boundary values of every free field) plus a "
+          "seed-dependent stream -- VERIF_SEED selects one of 21 (quick) / 4 (thorough) swept streams, seed mod N -- of random bytes, stratified opcode "
           "enumeration, decoder-table templates with random free fields, curated vectors of test/arch "
           "with bit flips) for x86 16/32/64, ARM l/b, Thumb l/b, AArch64 l/b, MIPS32 l/b, PPC32; every "
           "candidate miasm decodes is given to the reference disassemblers; distinct = distinct "
           "(arch/mode, mnemonic, operand kinds, length); non-trivial = miasm decoded it"),
-    assumptions=["llvm-objdump-14 (all subtarget views) and binutils objdump are correct when they agree",
+    assumptions=["the seed-dependent part is drawn from a closed set of streams (VERIF_SEED mod 21 quick, mod 4 thorough); other seeds repeat a stream",
+                 "llvm-objdump-14 (all subtarget views) and binutils objdump are correct when they agree",
                  "llvm-objdump reads ARM instruction words little-endian: big-endian ARM/Thumb are compared on the word",
                  "an encoding valid in any revision/profile view of the ISA counts as valid"],
     timeout={"quick": 900, "thorough": 3400},
@@ -49,6 +51,7 @@ VIEW = {"x86_16": "x86_16", "x86_32": "x86_32", "x86_64": "x86_64", "arml": "arm
 def shards(tier, seed, scale):
     # every llvm tool start costs about a second whatever the number of slots, so a shard works on
     # one arch/mode only (quick: 12 shards; thorough: 4 shards per arch/mode)
+    seed = ic.stream_index("C17", tier, seed)
     split = 1 if tier == "quick" else 4
     per = max(200, int(PER_ARCH[tier] * scale / split))
     stride = 1 if scale >= 1 else max(1, int(round(1 / scale)))
@@ -188,8 +191,11 @@ def run_shard(params, rec):
             rec.count("%s:decoded" % spec.name)
             rec.count("origin:" + origin)
             rec.count("len:%s:%d" % (spec.family, instr.l))
-            rec.count("mn:%s:%s" % (spec.family, ic.base_mnemonic(spec, instr)))
-            rec.distinct("%s/%s/%s/%d" % (spec.name, instr.name, ic.operand_kinds(instr), instr.l))
+            try:
+                rec.count("mn:%s:%s" % (spec.family, ic.base_mnemonic(spec, instr)))
+                rec.distinct("%s/%s/%s/%d" % (spec.name, instr.name, ic.operand_kinds(instr), instr.l))
+            except Exception as exc:     # a malformed instruction object must not end the shard
+                rec.count("odd_instruction_object:%s" % type(exc).__name__)
             if len(rec.samples) < 3:
                 rec.sample(dict(arch=spec.name, bytes=ic.hexs(instr.b), length=instr.l))
             batch.append((data, instr, origin))
